@@ -177,6 +177,16 @@ theorem evaluate_bad_iff (fin : α → Bool) (f : IGrid → α) (sortFn : List (
 
 /-! ### the invariant of the steps and of the trace of callback batches -/
 
+/-! ### a sort that the kernel can evaluate (for the non-vacuity examples) -/
+
+def insertStep [LT α] [DecidableLT α] (x : Step α) : List (Step α) → List (Step α)
+  | [] => [x]
+  | y :: ys => if x.value < y.value then x :: y :: ys else y :: insertStep x ys
+
+def insertionSort [LT α] [DecidableLT α] : List (Step α) → List (Step α)
+  | [] => []
+  | x :: xs => insertStep x (insertionSort xs)
+
 section inv
 variable [LinearOrder α]
 
@@ -553,7 +563,6 @@ theorem run_fuel {c : Cfg α} (hs : SortSpec c.sortFn) : ∀ (n : Nat) (st : St 
         | coarse r => simp [run, hp, hstep]
         | main => simp [run, hp, hstep]
 
-omit [LinearOrder α] in
 theorem inv_nil (c : Cfg α) : Inv c [] [] :=
   ⟨by simp, by simp, by simp, by simp, by simp, by simp⟩
 
@@ -579,15 +588,16 @@ theorem optimize_good {c : Cfg α} (hs : SortSpec c.sortFn) (avg : IGrid) (havg 
   · exact ⟨(by intro _ _ h; cases h; exact inv_nil c), tinv_nil c, (by intro _ h; cases h), (by intro h; cases h)⟩
   · rename_i b hev
     obtain ⟨hb, g, hg, hbad⟩ := evaluate_bad hev
-    have ht := tinv_snoc (inv_nil c) hp hlen
+    have ht : TInv c ([] ++ [freshOf [avg] ([] : List (Step α))]) := tinv_snoc (inv_nil c) hp hlen
     rw [← hb] at ht
-    refine ⟨(by intro _ _ h; cases h), by simpa using ht, ?_, (by intro h; cases h)⟩
+    refine ⟨(by intro _ _ h; cases h), (by simpa [Res.trace] using ht), ?_, (by intro h; cases h)⟩
     intro tr h
     cases h
     exact ⟨g, by simpa using hg, hbad⟩
   · rename_i steps b hev
-    obtain ⟨hinv, _⟩ := inv_evaluate hs (inv_nil c) hp hlen hev
-    exact run_good hs fuel ⟨steps, .coarse 2⟩ _ hinv (by show (2 : Int) ≠ 0; decide)
+    obtain ⟨hinv, _⟩ := inv_evaluate (tr := []) hs (inv_nil c) hp hlen hev
+    have hinv' : Inv c steps [b] := by simpa using hinv
+    exact run_good hs fuel ⟨steps, .coarse 2⟩ _ hinv' (by show (2 : Int) ≠ 0; decide)
 
 theorem optimize_fuel {c : Cfg α} (hs : SortSpec c.sortFn) (avg : IGrid) (havg : inGrid c.mn c.mx avg = true)
     (fuel : Nat) (hfuel : gridCard c.mn c.mx + 2 ≤ fuel) : optimize c avg fuel ≠ .fuel := by
@@ -603,9 +613,10 @@ theorem optimize_fuel {c : Cfg α} (hs : SortSpec c.sortFn) (avg : IGrid) (havg 
   · intro h; cases h
   · intro h; cases h
   · rename_i steps b hev
-    obtain ⟨hinv, hgrow⟩ := inv_evaluate hs (inv_nil c) hp hlen hev
-    refine run_fuel hs fuel ⟨steps, .coarse 2⟩ _ hinv (by show (2 : Int) ≠ 0; decide) ?_
-    have h1 := inv_length_le_gridCard hinv
+    obtain ⟨hinv, hgrow⟩ := inv_evaluate (tr := []) hs (inv_nil c) hp hlen hev
+    have hinv' : Inv c steps [b] := by simpa using hinv
+    refine run_fuel hs fuel ⟨steps, .coarse 2⟩ _ hinv' (by show (2 : Int) ≠ 0; decide) ?_
+    have h1 := inv_length_le_gridCard hinv'
     simp only [List.length_nil] at hgrow
     simp only [measure, phaseRank]
     omega
@@ -643,6 +654,7 @@ theorem run_trace_prefix (c : Cfg α) : ∀ (n : Nat) (st : St α) (tr : List (L
       · cases h
       · cases h
 
+omit [LinearOrder α] in
 /-- a successful `optimize` has evaluated the average grid point first -/
 theorem optimize_first_batch {c : Cfg α} (avg : IGrid) (fuel : Nat) {steps : List (Step α)} {tr : List (List IGrid)}
     (h : optimize c avg fuel = .ok steps tr) : (steps = [] ∧ tr = []) ∨ ∃ suffix, tr = [avg] :: suffix := by
@@ -658,16 +670,6 @@ theorem optimize_first_batch {c : Cfg α} (avg : IGrid) (fuel : Nat) {steps : Li
     refine ⟨suffix, ?_⟩
     rw [hsuf, hb]
     simp [freshOf]
-
-/-! ### a sort that the kernel can evaluate (for the non-vacuity examples) -/
-
-def insertStep [LT α] [DecidableLT α] (x : Step α) : List (Step α) → List (Step α)
-  | [] => [x]
-  | y :: ys => if x.value < y.value then x :: y :: ys else y :: insertStep x ys
-
-def insertionSort [LT α] [DecidableLT α] : List (Step α) → List (Step α)
-  | [] => []
-  | x :: xs => insertStep x (insertionSort xs)
 
 theorem insertStep_perm (x : Step α) : ∀ l : List (Step α), (insertStep x l).Perm (x :: l)
   | [] => List.Perm.refl _
